@@ -32,7 +32,7 @@ def bounds(tier):
 
 def goals(tier):
     return ["mixed-case-between-records", "region-lowered", "region-raised", "per-letter-overhang", "error-MissingModule", "error-DuplicateModules",
-            "error-InvalidSequence", "typing-accepts", "typing-rejects", "alternating"]
+            "error-InvalidSequence", "typing-accepts", "typing-rejects", "alternating", "per-letter-equal-vector-overhangs"]
 
 
 def alt(s, phase):
@@ -188,6 +188,22 @@ def run_unit(unit, st, tier):
                         cased[which] = s[:start] + seg + s[start + g.ov:]
                     compare(st, "letters", enz, up, cased, dict(family="letters", enz=enz, k=k, junction=j, masks=[list(ma), list(mb)]), cache)
                     st.goal("per-letter-overhang")
+        # a vector whose two overhangs coincide must be refused whatever the spelling of either occurrence
+        if k == 1:
+            eq = dict(base, ovs=[base["ovs"][0], base["ovs"][0]])
+            vec2, mods2 = asm.pieces_to_plasmids(eq)
+            up2 = [vec2.upper(), mods2[0].upper()]
+            masks = list(itertools.product((0, 1), repeat=g.ov))
+            occ = [(0, 0), (0, g.ov + len(base["vbb"]))]
+            for ma in masks:
+                for mb in masks:
+                    cased = list(up2)
+                    for (which, start), mask in zip(occ, (ma, mb)):
+                        s = cased[which]
+                        seg = "".join(c.lower() if bit else c for c, bit in zip(s[start:start + g.ov], mask))
+                        cased[which] = s[:start] + seg + s[start + g.ov:]
+                    compare(st, "letters", enz, up2, cased, dict(family="letters", enz=enz, k=k, junction="vector-with-equal-overhangs", masks=[list(ma), list(mb)]), cache)
+                    st.goal("per-letter-equal-vector-overhangs")
         st.sample(dict(family="letters", enz=enz, k=k, junction=0, masks=[[1, 0, 0, 0][: g.ov], [0] * g.ov]))
     elif kind == "errors":
         from . import c03
